@@ -23,8 +23,8 @@ EXTRA_VALUES = {'x.rx': ['c', 'ab'], 'x.rx2': ['d'], 'x.enum': ['c', 'A'], 'x.en
                 'x.lc': ['abcd', 'A'], 'x.str': ['']}
 
 OT_EDITS = ['none', 'none', 'bump', 'enum-extend', 'enum-shrink', 'enum-replace', 'enum-reorder', 'regex-extend', 'regex-drop',
-            'regex-replace', 'regex-add', 'regex-prefix-only', 'datatype-change', 'datatype-widen', 'free-change']
-ET_EDITS = ['none', 'bump', 'optional-on', 'optional-off', 'multi-on', 'multi-off', 'add-optional', 'add-mandatory', 'remove-prop',
+            'regex-replace', 'regex-add', 'regex-prefix-only', 'regex-empty', 'datatype-change', 'datatype-widen', 'free-change']
+ET_EDITS = ['none', 'bump', 'optional-on', 'optional-off', 'multi-on', 'multi-off', 'cardinality', 'cardinality', 'add-optional', 'add-mandatory', 'remove-prop',
             'merge-change', 'objecttype-change', 'add-attachment', 'remove-attachment', 'attachment-encoding', 'free-change',
             'add-optional-hashed', 'generic']
 
@@ -84,6 +84,8 @@ def edit_ot(rng, s, how):
         s['regexHard'] = rng.choice(['c', '[a-b]', 'a'])
     elif how == 'regex-add' and rx is None and dt.startswith('string'):
         s['regexHard'] = rng.choice(['x', '[a-z]+'])
+    elif how == 'regex-empty' and rx:
+        s['regexHard'] = ''             # an empty expression is not an absent one: it matches the empty string only
     elif how == 'regex-prefix-only' and rx:
         s['regexHard'] = rx + 'c'       # has the old expression as a prefix but is no alternation
     elif how == 'datatype-change':
@@ -117,6 +119,11 @@ def edit_et(rng, et, ots, how):
         p['multivalued'] = True
     elif how == 'multi-off' and p['merge'] not in ('add', 'set'):
         p['multivalued'] = False
+    elif how == 'cardinality':
+        # both flags at once, every combination
+        p['optional'] = rng.random() < 0.5
+        if p['merge'] not in ('add', 'set', 'match'):
+            p['multivalued'] = rng.random() < 0.5
     elif how in ('add-optional', 'add-mandatory', 'add-optional-hashed'):
         q = G.base_prop('n%d' % len(props), rng.choice([o['name'] for o in ots]))
         q['optional'] = how != 'add-mandatory'
